@@ -19,7 +19,10 @@ def _project(style, renamed, consumer_first, origin_all, where='package', scope=
         imp = 'from ._impl import X as Pub'
     else:
         imp = 'from ._impl import X'
-    impl = 'class X:\n    """doc of X"""\n    def m(self):\n        """doc m"""\n    class In:\n        v = 1\ndef other(): pass\n'
+    # Y: a second object of the defining module with its own (single) re-exporter pk.api2; the members of X name it the way
+    # the defining module does
+    impl = ('class Y:\n    """doc of Y"""\n    def ping(self): pass\n'
+            'class X:\n    """doc of X"""\n    sib: Y = None\n    """see L{Y.ping}"""\n    def m(self):\n        """doc m"""\n    class In:\n        v = 1\ndef other(): pass\n')
     if rebinds:
         # the defining module binds the name twice: an import of a same-named base first, then the class itself
         impl = 'from pk._base import X\n' + impl.replace('class X:', 'class X(X):')
@@ -42,6 +45,7 @@ def _project(style, renamed, consumer_first, origin_all, where='package', scope=
         mods = [('pk', f'{imp}\n__all__ = ["{exp}"]\n', True), ('pk._impl', impl, False), ('pk.user', user, False)]
     else:
         mods = [('pk', '', True), ('pk.api', f'{imp}\n__all__ = ["{exp}"]\n', False), ('pk._impl', impl, False), ('pk.user', user, False)]
+    mods.append(('pk.api2', 'from pk._impl import Y\n__all__ = ["Y"]\n', False))
     if not origin_all:
         mods.append(('pk.zstar', star_user, False))
     if rebinds:
@@ -124,6 +128,21 @@ def _check(case):
                     if f'href="{ob.url}"' not in html:
                         fails.append({'observed': f'{key}: annotation {local} is rendered as {html!r}', 'required': f'a link to {ob.url}',
                                       'class': 'annotation'})
+        # references made by the members of the moved class, written the way the defining module names things
+        y = system.allobjects.get('pk.api2.Y')
+        sib = system.allobjects.get(home + '.sib')
+        if y is None or 'pk._impl.Y' in system.allobjects:
+            fails.append({'observed': f'pk.api2.Y: {y}; pk._impl.Y documented: {"pk._impl.Y" in system.allobjects}', 'required': 'documented once, at pk.api2.Y', 'class': 'second-object'})
+        elif sib is not None:
+            html = flatten(_lk._AnnotationLinker(sib).link_to('Y', 'label'))
+            if f'href="{y.url}"' not in html:
+                fails.append({'observed': f'{home}.sib: annotation Y is rendered as {html!r}', 'required': f'a link to {y.url}', 'class': 'member-annotation'})
+            try:
+                got = _lk._EpydocLinker(sib)._resolve_identifier_xref('Y.ping', 0)
+            except LookupError:
+                got = None
+            if got is not y.contents['ping']:
+                fails.append({'observed': f'{home}.sib: cross-reference Y.ping -> {got}', 'required': f'{y.contents["ping"]}', 'class': 'member-reference'})
         # docstring cross-references by old or new qualified name (the linker's own resolution)
         from pydoctor import linker
         user = system.allobjects['pk.user']
